@@ -186,8 +186,11 @@ def gen_history(cat, prop, seed, h, tier):
         others = [i for i in ids_all if ent[i]["op"] in ("perlin", "generate_terrain") and i not in gens]
         if gens and len(others) >= 2:
             # a pending generator result across generator calls with other seeds
-            rng.shuffle(others)
-            ops += [{"k": "defer", "e": rng.choice(gens)}] + [{"k": "call", "e": i} for i in others[:8]] + [{"k": "force"}]
+            g0 = rng.choice(gens)
+            sd = ent[g0]["params"].get("seed")
+            oth = [i for i in others if ent[i]["params"].get("seed") != sd] or others
+            rng.shuffle(oth)
+            ops += [{"k": "defer", "e": g0}] + [{"k": "call", "e": i} for i in oth[:8]] + [{"k": "force"}]
         if "joint" not in kinds and len(dask_ids) >= 2:
             a = rng.choice(dask_ids)
             same = [i for i in dask_ids if i != a and ent[i][fkey] == ent[a][fkey]]
